@@ -133,6 +133,16 @@ def inverse_pairs(ctx, rule='C19-R2'):
                       f'{name}: forward coefficient is {a.show()}: expected 1 / scale (a single positive quantity), which '
                       'makes the scaling order-preserving', instance=f'{name}: do(v) increasing (coefficient 1/positive)')
         for j, ue in enumerate(undos):
+            if j not in partnered:
+                # every forward expression stopped at the first undo that inverts it; this one may invert one as well
+                # (the same pair seen twice: in a worker and in the wrapper that returns the worker's result)
+                for de in dos:
+                    try:
+                        if _compose(de, ue)[0]:
+                            partnered.add(j)
+                            break
+                    except AnalysisError:
+                        pass
             if j not in partnered and len(undos) > 1:
                 ctx.violation(rule, q, ue.node, ue.loc(), f'{name}: this undo expression inverts none of the forward expressions '
                               f'({T.show(ue.value, maxlen=120)})', instance=f'{name}: every undo expression has a forward partner')
@@ -230,7 +240,10 @@ def minrange(ctx, rule='C19-R4'):
               instance='convert_kwargs: (min_val, max_val) = minrange2minmax(vals, min_range)')
     shifts = [e for e in fx.deep_events(cq) if e.kind == 'store' and T.contains(e.target, lambda x: x == 'shift' or
               (tag(x) == 'col' and x[2] == 'shift'))]
-    ok = bool(shifts) and all(e.value == mx for e in shifts)
+    # ... or handed back in a new dictionary: return {**kwargs, 'shift': ...}
+    built = [v for e in fx.deep_events(cq) if e.kind == 'return' and e.value is not None
+             for d in T.walk(e.value) if tag(d) == 'dict' for k, v in d[1] if k == C('shift')]
+    ok = bool(shifts or built) and all(e.value == mx for e in shifts) and all(v == mx for v in built)
     ctx.check(ok, rule, cq, cf.node.name, cf.loc(), 'the default shift is not nanmax(vals)',
               instance='convert_kwargs: shift = nanmax(vals)')
 
@@ -368,13 +381,17 @@ def given_parameters_honoured(ctx, rule='C19-R7'):
     f = p.func(q, rule)
     ctx.saw(f)
     n = 0
+    sites = []
     for e in fx.deep_events(q):
-        if e.kind != 'store':
-            continue
-        tgt = e.target
-        if tag(tgt) not in ('col', 'sub') or not T.contains(tgt[1], lambda x: x == ('p', '**kwargs')):
-            continue
-        key = tgt[2] if tag(tgt) == 'col' else (tgt[2][1] if T.is_const(tgt[2]) else None)
+        if e.kind == 'store':
+            tgt = e.target
+            if tag(tgt) not in ('col', 'sub') or not T.contains(tgt[1], lambda x: x == ('p', '**kwargs')):
+                continue
+            sites.append((e, tgt[2] if tag(tgt) == 'col' else (tgt[2][1] if T.is_const(tgt[2]) else None)))
+        elif e.kind == 'return' and not e.ctx and tag(e.value) == 'dict':
+            # the derived parameter handed back in a new dictionary: return {**kwargs, 'shift': nanmax(vals)}
+            sites += [(e, k[1]) for k, v in e.value[1] if T.is_const(k) and T.root(T.peel(v)) != ('p', '**kwargs')]
+    for e, key in sites:
         if key not in ('shift', 'min_val', 'max_val', 'scale'):
             continue
         n += 1
@@ -462,6 +479,9 @@ def given_parameters_honoured(ctx, rule='C19-R7'):
             have = [a for a in T.walk(e.guard) if present(a, k)] + [s.guard for s in evs if s.kind == 'store'
                                                                      and s.seq < e.seq and key_of(s) == k]
             ok = T.implies(e.guard, T.mk_or(have))
+            # the result is a new dictionary that spells the key out: {**kwargs, 'shift': ...}
+            if ok is not True and tag(e.value) == 'dict' and any(kk == C(k) for kk, _ in e.value[1]):
+                ok = True
             ctx.check(ok is True, rule, q, e.node, e.loc(),
                       f"convert_kwargs returns the parameters of '{names[0]}' without '{k}' when {T.show(e.guard, maxlen=200)}: "
                       'the key is neither given nor derived on this path, so the scaling falls back on the extremum of whatever '
